@@ -308,6 +308,7 @@ def run(ctx):
     store_and_split_namespace(ctx)
     locations_differing_in_case(ctx)
     unresolved_imports_and_earlier_loads(ctx)
+    doctor_imports_and_inherited_prefixes(ctx)
     same_namespace_two_documents(ctx)
     wsdl_then_xsd_imports(ctx)
     same_name_element_and_type(ctx)
@@ -641,6 +642,80 @@ def unresolved_imports_and_earlier_loads(ctx):
     want = [None, None, sorted(net2), "TypeNotFound"]
     if got != want:
         ctx.fail("a load fetched (or used) a document that only an earlier load of this process had named", meta, got, want)
+
+
+def doctor_imports_and_inherited_prefixes(ctx):
+    """(a) an ImportDoctor import for a namespace the schema already imports from its own location adds no second
+    place to fetch from, one without a location names no document; (b) a schema document pulled in by wsdl:import with
+    the namespace of an inline block binds a prefix that wsdl:definitions binds to another namespace and the inline
+    block uses: every document is fetched once and each QName keeps its meaning (D54 across documents)."""
+    import suds.client
+    import suds.xsd.doctor
+    XS = "http://www.w3.org/2001/XMLSchema"
+    own = ('<xsd:schema xmlns:xsd="%s" targetNamespace="urn:own" elementFormDefault="qualified"><xsd:element name="o" '
+           'type="xsd:string"/></xsd:schema>' % XS).encode()
+
+    def wsdl(defs_attrs, wimport, inline):
+        return ('<?xml version="1.0"?><wsdl:definitions targetNamespace="urn:w" xmlns:wsdl="%s" xmlns:w="urn:w" xmlns:t="urn:t" '
+                'xmlns:soap="%s"%s>%s<wsdl:types>%s</wsdl:types><wsdl:message name="fIn"><wsdl:part name="p" element="t:f"/>'
+                '</wsdl:message><wsdl:portType name="PT"><wsdl:operation name="f"><wsdl:input message="w:fIn"/></wsdl:operation>'
+                '</wsdl:portType><wsdl:binding name="B" type="w:PT"><soap:binding style="document" '
+                'transport="http://schemas.xmlsoap.org/soap/http"/><wsdl:operation name="f"><soap:operation soapAction="f"/>'
+                '<wsdl:input><soap:body use="literal"/></wsdl:input></wsdl:operation></wsdl:binding><wsdl:service name="S">'
+                '<wsdl:port name="P" binding="w:B"><soap:address location="http://x.invalid/"/></wsdl:port></wsdl:service>'
+                '</wsdl:definitions>' % (IF.WSDLNS, IF.SOAPNS, defs_attrs, wimport, inline)).encode()
+    inline1 = ('<xsd:schema xmlns:xsd="%s" xmlns:o="urn:own" targetNamespace="urn:t" elementFormDefault="qualified">%%s'
+               '<xsd:element name="f"><xsd:complexType><xsd:sequence><xsd:element ref="o:o"/></xsd:sequence></xsd:complexType>'
+               '</xsd:element></xsd:schema>' % XS)
+    for label, decl, imp, want_urls in (
+            ("doctor-next-to-own-import", '<xsd:import namespace="urn:own" schemaLocation="http://docs.invalid/d/own.xsd"/>',
+             suds.xsd.doctor.Import("urn:own", "http://docs.invalid/elsewhere/own-by-doctor.xsd"),
+             ["http://docs.invalid/d/own.xsd", "http://docs.invalid/d/root.wsdl"]),
+            ("doctor-without-location", '<xsd:import namespace="urn:own" schemaLocation="http://docs.invalid/d/own.xsd"/>',
+             suds.xsd.doctor.Import("http://docs.invalid/ns-only"),
+             ["http://docs.invalid/d/own.xsd", "http://docs.invalid/d/root.wsdl"])):
+        net = {"http://docs.invalid/d/root.wsdl": wsdl("", "", inline1 % decl), "http://docs.invalid/d/own.xsd": own,
+               "http://docs.invalid/elsewhere/own-by-doctor.xsd": own.replace(b'name="o"', b'name="other"')}
+        meta = {"stream": "doctor-imports", "case": label}
+        ctx.case(common.canon(meta), True)
+        tr = DG.GraphTransport(net)
+        try:
+            c = suds.client.Client("http://docs.invalid/d/root.wsdl", transport=tr, cache=None, nosend=True,
+                                   doctor=suds.xsd.doctor.ImportDoctor(imp))
+            body = xmlread.find1(xmlread.parse(wsdlkit.envelope_bytes(c.service.f("v"))), "Body")
+            got = [None, sorted(set(str(u) for u in tr.opened)), [list(k["name"]) for k in body["children"][0]["children"]]]
+        except Exception as e:
+            got = ["%s: %s" % (type(e).__name__, e), sorted(set(str(u) for u in tr.opened)), None]
+        if got != [None, want_urls, [["urn:own", "o"]]]:
+            ctx.fail("a doctor's import made the load fetch a document the graph does not name (or changed what loads)", meta,
+                     got, [None, want_urls, [["urn:own", "o"]]])
+    # (b)
+    types = ('<xsd:schema xmlns:xsd="%s" xmlns:pa="urn:t" targetNamespace="urn:t" elementFormDefault="qualified">'
+             '<xsd:complexType name="T"><xsd:sequence><xsd:element name="v" type="xsd:int"/></xsd:sequence></xsd:complexType>'
+             '<xsd:element name="g" type="pa:T"/></xsd:schema>' % XS).encode()
+    inline2 = ('<xsd:schema xmlns:xsd="%s" targetNamespace="urn:t" elementFormDefault="qualified"><xsd:import namespace="urn:own" '
+               'schemaLocation="http://docs.invalid/d/own.xsd"/><xsd:element name="f"><xsd:complexType><xsd:sequence>'
+               '<xsd:element ref="pa:o"/></xsd:sequence></xsd:complexType></xsd:element></xsd:schema>' % XS)
+    for order in ("import-first", "types-first"):
+        wimp = '<wsdl:import namespace="urn:t" location="http://docs.invalid/d/sub/types.xsd"/>'
+        net = {"http://docs.invalid/d/root.wsdl": wsdl(' xmlns:pa="urn:own"', wimp, inline2),
+               "http://docs.invalid/d/own.xsd": own, "http://docs.invalid/d/sub/types.xsd": types}
+        if order == "types-first":
+            net["http://docs.invalid/d/root.wsdl"] = net["http://docs.invalid/d/root.wsdl"].replace(
+                wimp.encode(), b"", 1).replace(b"</wsdl:types>", b"</wsdl:types>" + wimp.encode(), 1)
+        meta = {"stream": "inherited-prefix-across-documents", "order": order}
+        ctx.case(common.canon(meta), True)
+        client, err, store, tr = load("http://docs.invalid/d/root.wsdl", {}, net)
+        try:
+            body = xmlread.find1(xmlread.parse(wsdlkit.envelope_bytes(client.service.f("v"))), "Body") if client else None
+            got = [err, sorted(set(str(u) for u in tr.opened)),
+                   None if body is None else [list(k["name"]) for k in body["children"][0]["children"]],
+                   None if client is None else [k for k, _v in client.factory.create("{urn:t}T")]]
+        except Exception as e:
+            got = [err, sorted(set(str(u) for u in tr.opened)), "%s: %s" % (type(e).__name__, e), None]
+        if got != [None, sorted(net), [["urn:own", "o"]], ["v"]]:
+            ctx.fail("a prefix the inline schema inherits changed its meaning when a document of the same namespace was "
+                     "consolidated with it", meta, got, [None, sorted(net), [["urn:own", "o"]], ["v"]])
 
 
 def same_name_element_and_type(ctx):
